@@ -84,7 +84,7 @@ def repeatAxis {α} (a : DimArray α) (newax : Axis) (k : DimKey) : Except Err (
 /-- `newaxis(name, values=None, pos)` -/
 def newaxis {α} (a : DimArray α) (name : String) (pos : Int) (vals : Option Axis) : Except Err (DimArray α) := do
   if a.dims.contains name then .error .value else
-  let p : Int := if pos == -1 then a.ndim else pos
+  let p : Int := if pos < 0 then pos + (a.ndim : Int) + 1 else pos
   if p < 0 || p > (a.ndim : Int) then .error .index else
   let ax : Axis := { name := name, labels := [Label.none], kind := .O }
   let o : DimArray α := { axes := a.axes.insertIdx p.toNat ax, vals := a.vals.insertDim p.toNat, vkind := a.vkind, attrs := a.attrs }
